@@ -53,6 +53,7 @@ enum DKind {
     D_TIME_JUMP,
     D_SPURIOUS_TRYLOCK,
     D_THROW,
+    D_PLAIN,  // preemption at a plain (non-atomic) access to heap memory
     D_NKINDS
 };
 
@@ -93,6 +94,7 @@ enum EKind {
     E_EVWAIT,
     E_CTR,
     E_CHOOSE,
+    E_PLAIN,
     E_NKINDS
 };
 
@@ -156,6 +158,7 @@ void event_result(uint64_t v);
 int decide(int dkind, int n, int dflt);
 bool fault_decide(int dkind);  // recorded fault decision for current thread
 bool fault_enabled(int dkind);
+void plain_access_point(const void* addr);  // maybe pre-empt at a plain heap access
 uint64_t rnd_sched();
 int obj_ordinal(const void* p);
 [[noreturn]] void vfail(const char* cls, const char* fmt, va_list ap);
